@@ -443,6 +443,75 @@ func c12crashRetry(kind string) *lib.Scenario {
 	return sc
 }
 
+// --- scenario E: a split run crashes, the diamond is then terminated (commit with the other split, or cancel), and the
+// crashed split is run again with the same ID: the rerun must be refused and write nothing; the bundle holds s1 only
+// unless the crashed run had already recorded its completion.
+func c12rerunAfterTermination(how string) *lib.Scenario {
+	sc := &lib.Scenario{Name: "split-run(crash);" + how + ";split-rerun"}
+	sc.Setup = func(x *lib.Exec) { c12setup(x, map[string]map[string][]byte{"s1": c12files["s1"]}) }
+	sc.Phases = [][]lib.ClientFn{
+		{func(x *lib.Exec, id int) error {
+			cw := x.Data["cw"].(*c12world)
+			return splitAdd(cw.w.Gated(x, id, c12gates), "r", cw.diamond, "s2", c12files["s2"])
+		}},
+		{func(x *lib.Exec, id int) error {
+			cw := x.Data["cw"].(*c12world)
+			time.Sleep(time.Second)
+			if how == "cancel" {
+				return diamondCancel(cw.w.Stores(), "r", cw.diamond)
+			}
+			_, err := diamondCommit(cw.w.Stores(), "r", cw.diamond, model.EnableConflicts)
+			return err
+		}},
+		{func(x *lib.Exec, id int) error {
+			cw := x.Data["cw"].(*c12world)
+			time.Sleep(time.Second)
+			w := cw.w
+			x.Data["terminated"] = c12has(w.VMeta, model.GetArchivePathToFinalDiamond("r", cw.diamond))
+			x.Data["jlens"] = [3]int{w.Meta.JournalLen(), w.VMeta.JournalLen(), w.Blob.JournalLen()}
+			err := splitAdd(w.Stores(), "r", cw.diamond, "s2", map[string][]byte{"b": []byte("content of the second run"), "b2": []byte("more")})
+			x.Data["jlens-after"] = [3]int{w.Meta.JournalLen(), w.VMeta.JournalLen(), w.Blob.JournalLen()}
+			return err
+		}},
+	}
+	sc.Faults = crashOnWrites(0)
+	sc.Final = func(x *lib.Exec) {
+		cw := x.Data["cw"].(*c12world)
+		if x.Hung {
+			x.Violate("C12|hang|"+sc.Name, "actors never completed")
+			return
+		}
+		tag := "actors=split-run-crashed," + how + ",split-rerun"
+		site := "none"
+		for _, s := range x.Steps {
+			if strings.HasPrefix(s.Granted, "crash-") {
+				g := s.Granted
+				site = strings.Fields(g)[0] + ":other"
+				if strings.Contains(g, "split-done") {
+					site = strings.Fields(g)[0] + ":split-done"
+				}
+			}
+		}
+		bundles := c12common(x, cw, tag+"|crash="+site)
+		if x.ClientErr[1] != nil {
+			x.Violate("C12|"+how+"-fails-with-crashed-split|"+tag, fmt.Sprintf("%s after a split run crashed (%s): %v", how, site, x.ClientErr[1]))
+		}
+		if term, _ := x.Data["terminated"].(bool); term {
+			if x.ClientErr[2] == nil {
+				x.Violate("C12|I2-late-split-rerun-accepted|"+tag, fmt.Sprintf("the rerun of split s2 (first run crashed at %s) started after the diamond was terminated (%s) and succeeded", site, how))
+			}
+			if x.Data["jlens"] != x.Data["jlens-after"] {
+				x.Violate("C12|I2-late-split-rerun-wrote|"+tag, fmt.Sprintf("the rerun of split s2 after the diamond was terminated (%s) wrote to the stores (err=%v)", how, x.ClientErr[2]))
+			}
+		}
+		if how == "commit" && len(bundles) == 1 {
+			c12checkBundle(x, cw, bundles[0], []string{"s1"}, []string{"s1", "s2"}, tag)
+		}
+		x.SetOutcome(fmt.Sprintf("bundles=%d;crash=%s;%s=%s;rerun=%s", len(bundles), site, how, errTag(x.ClientErr[1]), errTag(x.ClientErr[2])))
+	}
+	return sc
+}
+
 func TestC12(t *testing.T) {
 	rep := lib.NewReport("C12", "model_checking")
 	defer rep.Finish(t)
@@ -450,7 +519,7 @@ func TestC12(t *testing.T) {
 	if lib.Thorough() {
 		pb = 3
 	}
-	rep.Rule = fmt.Sprintf("real split add / commit / cancel call sequences as concurrent clients, every metadata+vmetadata store call a scheduling point; all interleavings with <=%d preemptions; crash before/after every store write of the crashing actor followed by a retry; invariants I1..I5 on every end state (+ late actors must fail without writing); distinct = distinct (scenario, outcome)", pb)
+	rep.Rule = fmt.Sprintf("real split add / commit / cancel call sequences as concurrent clients, every metadata+vmetadata store call a scheduling point; all interleavings with <=%d preemptions; crash before/after every store write of the crashing actor followed by a retry; a split run crashing at every store write, then commit / cancel, then a rerun of that split ID; invariants I1..I5 on every end state (+ late actors must fail without writing); distinct = distinct (scenario, outcome)", pb)
 	scs := []struct {
 		sc     *lib.Scenario
 		faults int
@@ -462,6 +531,8 @@ func TestC12(t *testing.T) {
 		{c12rerun(true), 1},
 		{c12crashRetry("commit"), 1},
 		{c12crashRetry("cancel"), 1},
+		{c12rerunAfterTermination("commit"), 1},
+		{c12rerunAfterTermination("cancel"), 1},
 	}
 	names := make([]string, len(scs))
 	for i, s := range scs {
